@@ -1465,13 +1465,24 @@ class ISRNSpec(NetFamily):
             run.obj.set_fixed_recurrence_rate(v)
             run.model.update(spec=("recurrence_rate", v), A_over=False, A=None, la_w=None, w=None)
             return {"recurrence_rate": v}
-        why = ("replaces rp_x/rp_y/crp_xy but neither the adjacency matrix nor `threshold`; "
-               "the network keeps the old links")
-        self.quarantine = [
-            Mut("set_fixed_threshold", q_thr,
-                check="InterSystemRecurrenceNetwork.set_fixed_threshold/fresh-twin", why=why),
-            Mut("set_fixed_recurrence_rate", q_rr,
-                check="InterSystemRecurrenceNetwork.set_fixed_recurrence_rate/fresh-twin", why=why)]
+        # the two setters are ordinary mutators since the repair "ISRN setters update adjacency"; their per-part values
+        # come from pools whose tuples share components, so that a history revisits a part value after the other kind of
+        # setter ran in between
+        thr_pool = [(1.6, 1.4, 1.8), (1.6, 0.9, 1.2), (1.1, 1.4, 1.2), (1.1, 0.9, 1.8)]
+        rr_pool = [(0.5, 0.4, 0.6), (0.5, 0.3, 0.45), (0.35, 0.4, 0.45), (0.35, 0.3, 0.6)]
+
+        def setter(kind, meth, pool):
+            def fn(run, k):
+                v = pool[k % 4]
+                if run.model["spec"] == (kind, v):
+                    v = pool[(k + 1) % 4]
+                getattr(run.obj, meth)(v)
+                run.model.update(spec=(kind, v), A_over=False, A=None, la_w=None)      # node weights stay (same N)
+                return {kind: v}
+            return fn
+        self.mutators = [Mut("set_fixed_threshold", setter("threshold", "set_fixed_threshold", thr_pool)),
+                         Mut("set_fixed_recurrence_rate", setter("recurrence_rate", "set_fixed_recurrence_rate", rr_pool))] \
+            + self.mutators
 
     def make(self, m):
         from pyunicorn.timeseries import InterSystemRecurrenceNetwork
